@@ -299,8 +299,13 @@ def transfer_return(sp):
 #
 # roles: C callback (local typedef), A GAsyncReadyCallback, U gpointer whose name is the
 # user-data name under test, D GDestroyNotify, O ordinary parameter (int), E GError**
-def arrangement_expect(roles, unames):
-    """roles: list of role letters; unames: parameter name per position (for U).
+def arrangement_expect(roles, unames, plain_u=None):
+    """roles: list of role letters; unames: parameter name per position (for U);
+    plain_u: per position, False when the user-data slot is spelled through a typedef of
+    gpointer (the statement speaks of "a user_data pointer"; whether a typedef'd pointer
+    counts is not fixed, so closure is UNSPECIFIED then).  Callback and destroy-notify
+    slots spelled through local typedefs of the callback / GDestroyNotify /
+    GAsyncReadyCallback types keep their role (quantifier: "typedef'd ... type spelling").
     Returns dict:
        throws: '1' | ABSENT | None
        kept:   list of indices of `roles` that MUST appear as parameters, in order (or None)
@@ -337,7 +342,8 @@ def arrangement_expect(roles, unames):
         later_ptr = [k for k in range(i + 1, len(L)) if L[k] == 'U']
         later_d = [k for k in range(i + 1, len(L)) if L[k] == 'D']
         # closure
-        if len(us) == 1 and unames[eff[us[0]]] == 'user_data' and len(later_ptr) == 1:
+        if len(us) == 1 and unames[eff[us[0]]] == 'user_data' and len(later_ptr) == 1 \
+                and (plain_u is None or plain_u[eff[us[0]]]):
             e['closure'] = str(us[0])                    # "a user_data pointer following a callback"
         elif not later_ptr:
             e['closure'] = ABSENT                        # nothing that could be user data follows
@@ -356,6 +362,15 @@ def arrangement_expect(roles, unames):
         out['cb'][i] = e
     return out
 
+
+# local typedefs of the role types (alias depth 1 and 2): (C spelling, GI name, declaration target)
+ROLE_ALIASES = {
+    ('C', 'K'): ('FooCbAlias', 'CbAlias'), ('A', 'K'): ('FooReadyCb', 'ReadyCb'),
+    ('D', 'D1'): ('FooFreeFunc', 'FreeFunc'), ('D', 'D2'): ('FooFreeFunc2', 'FreeFunc2'),
+    ('U', 'U'): ('FooPtr', 'Ptr'),
+}
+ALIAS_TARGETS = [('FooCbAlias', 'FooCb'), ('FooReadyCb', 'GAsyncReadyCallback'), ('FooFreeFunc', 'GDestroyNotify'),
+                 ('FooFreeFunc2', 'FooFreeFunc'), ('FooPtr', 'gpointer')]
 
 ROLE_TYPES = {
     'C': ('FooCb', 'Cb'), 'A': ('GAsyncReadyCallback', 'Gio.AsyncReadyCallback'),
